@@ -530,3 +530,51 @@ pub fn c11_byron_attributes<S: Src>(s: &mut S) {
         assert!(generic.to_bytes() == addr, "Address::from_bytes / to_bytes changes a Byron address with explicit magic {}", magic);
     }
 }
+
+// ---------------------------------------------------------------- C14: amounts accumulated by the mint builder stay inside Int's range
+fn int_of(v: i128) -> Int {
+    if v >= 0 { Int::new(&BigNum::from(v as u64)) }
+    else if v == -(1i128 << 64) { Int::from_bytes(vec![0x3b, 0xff, 0xff, 0xff, 0xff, 0xff, 0xff, 0xff, 0xff]).unwrap() }
+    else { Int::new_negative(&BigNum::from((-v) as u64)) }
+}
+pub fn c14_mint_builder_range<S: Src>(s: &mut S) {
+    let (func, pre) = (s.u8(), s.u8());
+    let mut rd = |s: &mut S| -> i128 {
+        let (neg, mag, hi) = (s.u8(), s.u64(), s.u8());
+        let m = mag as i128 + if hi != 0 { 1i128 << 64 } else { 0 };
+        if neg != 0 { -m } else { m }
+    };
+    let (old, off) = (rd(s), rd(s));
+    let (lo, hi) = (-(1i128 << 64), (1i128 << 64) - 1);
+    s.assume(old >= lo && old <= hi && off >= lo && off <= hi);
+    let name = AssetName::new(vec![1, 2, 3]).unwrap();
+    let native = NativeScript::new_script_pubkey(&ScriptPubkey::new(&Ed25519KeyHash::from([7u8; 28])));
+    let plutus = PlutusScript::new(vec![1, 2, 3, 4]);
+    let red = Redeemer::new(&RedeemerTag::new_mint(), &BigNum::from(0u64), &PlutusData::new_bytes(vec![1]), &ExUnits::new(&BigNum::from(1u64), &BigNum::from(1u64)));
+    let (wit, policy) = if pre == 2 { (MintWitness::new_plutus_script(&PlutusScriptSource::new(&plutus), &red), plutus.hash()) }
+                        else { (MintWitness::new_native_script(&NativeScriptSource::new(&native)), native.hash()) };
+    let mut mb = MintBuilder::new();
+    let mut expect = 0i128;
+    if pre != 0 {
+        s.assume(old != 0);
+        if mb.add_asset(&wit, &name, &int_of(old)).is_err() { return; }
+        expect = old;
+    }
+    if func == 2 {
+        // build() refuses a zero amount: reach zero by cancelling
+        if mb.add_asset(&wit, &name, &int_of(-old)).is_err() { return; }
+        if let Ok(m) = mb.build() {
+            let got = m.get(&policy).and_then(|l| l.get(0)).and_then(|a| a.get(&name));
+            assert!(got.map(|i| i.to_str() != "0").unwrap_or(true), "MintBuilder::build hands out a mint entry with quantity 0");
+        }
+        return;
+    }
+    let r = if func == 0 { mb.add_asset(&wit, &name, &int_of(off)) } else { mb.set_asset(&wit, &name, &int_of(off)) };
+    if r.is_err() { return; }
+    expect = if func == 0 { expect + off } else { off };
+    let mint = match mb.build() { Ok(m) => m, Err(_) => return };       // refuses only a zero amount
+    let got = mint.get(&policy).and_then(|l| l.get(0)).and_then(|a| a.get(&name)).expect("asset stored");
+    let v: i128 = got.to_str().parse().expect("decimal form of the stored amount");
+    assert!(v == expect, "MintBuilder stores {} for {} {} {}", v, old, if func == 0 { "+" } else { "set to" }, off);
+    assert!(v >= lo && v <= hi, "MintBuilder hands out the signed amount {} outside -2^64..2^64-1 (its CBOR form truncates to {})", v, Int::from_bytes(got.to_bytes()).map(|i| i.to_str()).unwrap_or("undecodable".to_string()));
+}
